@@ -4,7 +4,10 @@
      map   lay=left|right|stride|tleft|tright it=<i8..u64> pat=[..] ext=[..] ctor=dyn|all [str=[..] perm=[..]]
      conv  it= sit= pat=[..] spat=[..] ext=[..]
      stride_members it= pat=[..] ext=[..] str=[..]
-     sub   it= pat=[..] ext=[..] keep=[0|1 ..]           (submdspan_extents with full_extent / index slices)
+     map   lay=tstride it= pat=[..] ext=[..] ctor= str=[..] perm=[..]   (layout_transpose<layout_stride>; str = strides of the view)
+     sub   it= pat=[..] ext=[..] sl=F,I,P,T,A,M<lo>,C<lo>_<hi> lo=[..] hi=[..]   (submdspan_extents; `keep=[0|1 ..]` = F/I only)
+     mda   lay=left|right|stride it= pat=[..] ext=[..] val= [str=[..] perm=[..]]    (mdarray constructors)
+     msz   lay=left|right it= pat=[..] ext=[..]            (size / empty when only the SIZE is representable)
      span  n= se= op=first|last|subspan ct=0|1 off= cnt=
 -/
 import Tetl.Proto
@@ -40,6 +43,12 @@ def okIf (b : Bool) : String := if b then "ok" else "bad"
 def fmtFields (ext : List Int) (r d : Nat) (req : String) (str offs : List Int) (size : String) (md mda : String) : String :=
   s!"ext={fmtList ext} rk={r}/{d} req={req} str={fmtList str} off={fmtList offs} size={size} md={md} mda={mda}"
 
+def fmtB (b : Bool) : String := if b then "1" else "0"
+
+def fmtObs (o : Obs) (fw : Bool) : String :=
+  fmtB o.alwaysUnique ++ fmtB o.alwaysExhaustive ++ fmtB o.alwaysStrided ++ fmtB o.unique ++ fmtB o.exhaustive
+    ++ fmtB o.strided ++ fmtB fw
+
 /-- layout_left / layout_right on the model -/
 def modelMap (l : Lay) (t : IdxT) (pat : Pat) (vals : List Int) (all : Bool) : Except Err String := do
   let e ← Ext.ofVals t pat (ctorVals pat vals all)
@@ -58,18 +67,22 @@ def modelMap (l : Lay) (t : IdxT) (pat : Pat) (vals : List Int) (all : Bool) : E
   let size ← mdspanSize t e
   let emp ← mdspanEmpty t e
   let self ← Ext.eq t t e e                                             -- `ms.extents() == e`
+  let mext ← (List.range rank).mapM ((mdspanExtents e).extent t)          -- `ms.extents()`
+  let masz ← mdarraySize t e
+  let maemp ← mdarrayEmpty t e
   pure (fmtFields exts rank (rankDynamic pat) (toString req) strs offs (toString size)
     (okIf (intsOf md == offs && mdS == md && emp == (req == 0) && self))
-    (okIf (mda.all (fun p => p.1 == sz req) && intsOf (mda.map (·.2)) == offs && intsOf mdaV == offs && csz == sz req)))
+    (okIf (mda.all (fun p => p.1 == sz req) && intsOf (mda.map (·.2)) == offs && intsOf mdaV == offs && csz == sz req))
+    ++ s!" mext={fmtList mext} masz={masz} emp={fmtB emp}{fmtB maemp} obs={fmtObs (contigObs l) true}")
 
 def specMap (l : Lay) (pat : Pat) (vals : List Nat) : String :=
   let rank := vals.length
   let strs := (List.range rank).map (fun k => match l with | .left => Spec.strideLeft vals k | .right => Spec.strideRight vals k)
   let offs := (Spec.indices vals).map (fun i => match l with | .left => Spec.offLeft vals i | .right => Spec.offRight vals i)
+  let z := fmtB (vals.contains 0)
   fmtFields (intsOf vals) rank (rankDynamic pat) (toString (Spec.prod vals)) (intsOf strs) (intsOf offs)
     (toString (Spec.prod vals)) "ok" "ok"
-
-def fmtB (b : Bool) : String := if b then "1" else "0"
+    ++ s!" mext={fmtNatList vals} masz={Spec.prod vals} emp={z}{z} obs=1111111"
 
 /-- layout_stride on the model: offsets, strides, required_span_size, is_exhaustive, mdspan / mdarray access,
     operator== (against layout_left / layout_right mappings of the same extents, a strided mapping over
@@ -116,7 +129,9 @@ def modelStride (t : IdxT) (pat : Pat) (vals str : List Int) (all : Bool) : Exce
   pure (fmtFields exts rank (rankDynamic pat) (toString req) strs offs (toString size) (okIf (intsOf md == offs))
       (okIf (mda.all (fun p => p.1 == sz req) && intsOf (mda.map (·.2)) == offs))
     ++ s!" exh={fmtB exh} eq={eqs} cl={fmtList cls} cr={fmtList crs} cs={fmtList css} ce={fmtList ce}"
-    ++ (if cle && cre then "" else " conv-ext!") ++ s!" back={bl}{br}")
+    ++ (if cle && cre then "" else " conv-ext!") ++ s!" back={bl}{br}"
+    ++ s!" mext={fmtList (← (List.range rank).mapM ((mdspanExtents m.ext).extent t))} emp={fmtB (← mdspanEmpty t e)}"
+    ++ s!" obs={fmtObs (← m.obs t) true}")
 
 def specStride (pat : Pat) (vals str : List Nat) : String :=
   let rank := vals.length
@@ -128,6 +143,7 @@ def specStride (pat : Pat) (vals str : List Nat) : String :=
     ++ s!" exh={fmtB (Spec.isExhaustiveStride vals str)} eq={fmtB (str == sl)}{fmtB (str == sr)}1{if rank == 0 then "-" else "0"}"
     ++ s!" cl={fmtNatList sl} cr={fmtNatList sr} cs={fmtNatList str} ce={fmtNatList vals}"
     ++ s!" back={if str == sl then "1" else "-"}{if str == sr then "1" else "-"}"
+    ++ s!" mext={fmtNatList vals} emp={fmtB (vals.contains 0)} obs=1011{fmtB (Spec.isExhaustiveStride vals str)}11"
 
 /-- layout_transpose: `pat`/`vals` describe the extents of the transposed view -/
 def modelT (l : Lay) (t : IdxT) (pat : Pat) (vals : List Int) (all : Bool) : Except Err String := do
@@ -150,8 +166,42 @@ def modelT (l : Lay) (t : IdxT) (pat : Pat) (vals : List Int) (all : Bool) : Exc
   let size ← mdspanSize t e
   let emp ← mdspanEmpty t e
   -- is_always_exhaustive() / is_exhaustive() forward to the nested layout_left / layout_right mapping: constant true
+  let mext ← (List.range 2).mapM ((mdspanExtents e).extent t)
   pure (fmtFields exts 2 (rankDynamic pat) (toString req) strs offs (toString size)
-    (okIf (intsOf md == offs && emp == (req == 0))) "-" ++ " exh=1")
+    (okIf (intsOf md == offs && emp == (req == 0))) "-" ++ s!" exh={fmtB (m.obs.alwaysExhaustive && m.obs.exhaustive)}"
+    ++ s!" mext={fmtList mext} obs={fmtObs m.obs true}")
+
+/-- layout_transpose<layout_stride>: `pat`/`vals`/`str` describe the transposed VIEW; the nested mapping has the
+    transposed extents and the two strides swapped -/
+def modelTS (t : IdxT) (pat : Pat) (vals str : List Int) (all : Bool) : Except Err String := do
+  let tp ← transposePat pat
+  let ne ← Ext.ofVals t tp (ctorVals tp vals.reverse all)
+  let nm ← StrideMap.mk' t ne str.reverse
+  let m ← TSMap.make t nm
+  let e := m.extents
+  let exts ← (List.range 2).mapM (e.extent t)
+  let req ← m.reqSpan t
+  let strs ← (List.range 2).mapM (m.stride t)
+  let idxs := Spec.indices (natsOf exts)
+  let offs ← idxs.mapM (fun i => match i with
+    | [a, b] => m.mapIdx t a b
+    | _ => .error (.pre "arity"))
+  let buf := List.range req.toNat
+  let md ← idxs.mapM (fun i => match i with
+    | [a, b] => mdspanAtTS t m buf a b
+    | _ => .error (.pre "arity"))
+  let size ← mdspanSize t e
+  let emp ← mdspanEmpty t e
+  let mext ← (List.range 2).mapM ((mdspanExtents e).extent t)
+  let o ← m.obs t
+  pure (fmtFields exts 2 (rankDynamic pat) (toString req) strs offs (toString size)
+    (okIf (intsOf md == offs && emp == (size == 0))) "-" ++ s!" mext={fmtList mext} obs={fmtObs o true}")
+
+def specTS (pat : Pat) (vals str : List Nat) : String :=
+  let offs := (Spec.indices vals).map (fun i => Spec.offStride str i)
+  fmtFields (intsOf vals) 2 (rankDynamic pat) (toString (Spec.reqSpanStride vals str)) (intsOf str) (intsOf offs)
+      (toString (Spec.prod vals)) "ok" "-"
+    ++ s!" mext={fmtNatList vals} obs=1011{fmtB (Spec.isExhaustiveStride vals str)}11"
 
 def specT (l : Lay) (pat : Pat) (vals : List Nat) : String :=
   -- the transposed view of a row-major matrix is the column-major view of the same extents, and vice versa
@@ -159,7 +209,68 @@ def specT (l : Lay) (pat : Pat) (vals : List Nat) : String :=
   let strs := (List.range 2).map (fun k => match vl with | .left => Spec.strideLeft vals k | .right => Spec.strideRight vals k)
   let offs := (Spec.indices vals).map (fun i => match vl with | .left => Spec.offLeft vals i | .right => Spec.offRight vals i)
   fmtFields (intsOf vals) 2 (rankDynamic pat) (toString (Spec.prod vals)) (intsOf strs) (intsOf offs) (toString (Spec.prod vals)) "ok" "-"
-    ++ " exh=1"
+    ++ " exh=1" ++ s!" mext={fmtNatList vals} obs=1111111"
+
+/-! ### mdarray constructors (`mda` lines): each constructed object is reported as len/sum/chk -/
+
+def listSum (l : List Int) : Int := l.foldl (· + ·) 0
+
+def chkOf (reads : List Int) : Int :=
+  listSum ((List.range reads.length).zipWith (fun k x => ((k : Nat) + 1 : Int) * x) reads)
+
+def rep (c : List Int) (reads : List Int) : String := s!"{c.length}/{listSum c}/{chkOf reads}"
+
+def ARRN : Nat := 260
+
+/-- the constructors on the model: `read c i` is `mdarray::operator()` on the container `c` -/
+def modelMdaFields (ofMap : Ctr → Except Err (List Int)) (ofVal : Ctr → Int → Except Err (List Int))
+    (read : List Int → List Int → Except Err Int) (idxs : List (List Int)) (want : Nat) (val : Int) (withExt : Bool) (rank : Nat) :
+    Except Err String := do
+  let one (name : String) (c : List Int) : Except Err String := do
+    let reads ← idxs.mapM (read c)
+    pure s!" {name}={rep c reads}"
+  let cs : List Int := (List.range want).map (fun k => ((100 + k : Nat) : Int))
+  let ca : List Int := (List.range ARRN).map (fun k => ((100 + k : Nat) : Int))
+  let cm ← ofMap (.sized 256)
+  let cmv ← ofVal (.sized 256) val
+  let am ← ofMap (.arr ARRN)
+  let amv ← ofVal (.arr ARRN) val
+  let mut out := ""
+  out := out ++ (← one "cm" cm) ++ (← one "cmv" cmv) ++ (← one "cmc" (mdarrayOfContainer cs)) ++ (← one "cmr" (mdarrayOfContainer cs))
+  out := out ++ (← one "am" am) ++ (← one "amv" amv) ++ (← one "amc" (mdarrayOfContainer ca)) ++ (← one "amr" (mdarrayOfContainer ca))
+  if withExt then
+    -- `mdarray(extents ..)` forwards to `mdarray(mapping_type(ext) ..)`, `mdarray(exts...)` to `mdarray(extents)`
+    out := out ++ (← one "ce" cm) ++ (← one "cev" cmv) ++ (← one "cec" (mdarrayOfContainer cs)) ++ (← one "cer" (mdarrayOfContainer cs))
+    out := out ++ (← one "ae" am) ++ (← one "aev" amv) ++ (← one "aec" (mdarrayOfContainer ca))
+    if rank > 0 then out := out ++ (← one "cp" cm)
+  pure out
+
+def specMdaFields (offs : List Nat) (want : Nat) (val : Int) (withExt : Bool) (rank : Nat) : String :=
+  let one (name : String) (c : List Int) : String :=
+    s!" {name}={rep c (offs.map (fun o => match c[o]? with | some x => x | none => -1))}"
+  let cs : List Int := (List.range want).map (fun k => ((100 + k : Nat) : Int))
+  let ca : List Int := (List.range ARRN).map (fun k => ((100 + k : Nat) : Int))
+  let z (n : Nat) : List Int := List.replicate n 0
+  let v (n : Nat) : List Int := List.replicate n val
+  one "cm" (z want) ++ one "cmv" (v want) ++ one "cmc" cs ++ one "cmr" cs
+    ++ one "am" (z ARRN) ++ one "amv" (v ARRN) ++ one "amc" ca ++ one "amr" ca
+    ++ (if withExt then
+          one "ce" (z want) ++ one "cev" (v want) ++ one "cec" cs ++ one "cer" cs
+            ++ one "ae" (z ARRN) ++ one "aev" (v ARRN) ++ one "aec" ca ++ (if rank > 0 then one "cp" (z want) else "")
+        else "")
+
+/-- slice kinds of a `sub` line: F, I, P / T / A (run-time pairs), M<lo> (one static bound), C<lo>_<hi> (static pair) -/
+def parseSlices (names : List String) (lo hi : List Int) : Option (List Slice) :=
+  (List.range names.length).mapM (fun k =>
+    match names[k]?, lo[k]?, hi[k]? with
+    | some n, some a, some b =>
+      if n == "F" then some Slice.full
+      else if n == "I" then some Slice.idx
+      else if n == "P" || n == "T" || n == "A" then some (Slice.pair a b false)
+      else if n.startsWith "M" then some (Slice.pair a b false)
+      else if n.startsWith "C" then some (Slice.pair a b true)
+      else none
+    | _, _, _ => none)
 
 def fmtSpan (base : List Int) (s : Span) : Except Err String := do
   let el ← s.elems base
@@ -186,6 +297,13 @@ def step (_ : Unit) (l : Line) : Unit × String :=
         | some str, some perm =>
           if !Spec.StrideOK vals str perm then out "pre(strides)" "pre(strides)" else
           out (fmtE (modelStride t pat (intsOf vals) (intsOf str) all)) (specStride pat vals str)
+        | _, _ => bad
+      | "tstride" =>
+        match l.natList? "str", l.natList? "perm" with
+        | some str, some perm =>
+          if vals.length ≠ 2 then bad else
+          if !Spec.StrideOK vals str perm then out "pre(strides)" "pre(strides)" else
+          out (fmtE (modelTS t pat (intsOf vals) (intsOf str) all)) (specTS pat vals str)
         | _, _ => bad
       | _ => bad
     | _, _, _, _, _ => bad
@@ -220,22 +338,52 @@ def step (_ : Unit) (l : Line) : Unit × String :=
         ++ s!" cmp=1{if rank == 0 then "-" else "0"}0")
     | _, _, _, _ => bad
   | "sub" =>
-    match (l.str? "it").bind parseIt, l.list? "pat", l.natList? "ext", l.natList? "keep" with
-    | some t, some p, some vals, some keepN =>
+    match (l.str? "it").bind parseIt, l.list? "pat", l.natList? "ext" with
+    | some t, some p, some vals =>
       let pat := parsePat p
-      let keep := keepN.map (· != 0)
-      if pat.length ≠ vals.length || keep.length ≠ vals.length then bad else
+      -- slice kinds: `sl=F,I,P,..` with `lo=` / `hi=`, or the former `keep=[0|1 ..]` (1 = full_extent, 0 = index)
+      let names : Option (List String) :=
+        match l.str? "sl", l.natList? "keep" with
+        | some sl, _ => some (if sl == "-" then [] else sl.splitOn ",")
+        | none, some keepN => some (keepN.map (fun k => if k != 0 then "F" else "I"))
+        | none, none => none
+      match names with
+      | none => bad
+      | some names =>
+      let zeros : List Int := List.replicate vals.length 0
+      let lo := (l.list? "lo").getD zeros
+      let hi := (l.list? "hi").getD zeros
+      match parseSlices names lo hi with
+      | none => bad
+      | some sl =>
+      if pat.length ≠ vals.length || sl.length ≠ vals.length then bad else
+      -- precondition of [mdspan.sub.extents]: 0 <= lo <= hi <= extent for every pair slice
+      let okPre := (List.range vals.length).all (fun k =>
+        match sl[k]?, vals[k]? with
+        | some (Slice.pair a b _), some x => decide (0 ≤ a) && decide (a ≤ b) && decide (b ≤ Int.ofNat x)
+        | _, _ => true)
+      if !okPre then out "pre(slices)" "pre(slices)" else
       let m : Except Err String := do
         let e ← Ext.ofVals t pat (intsOf vals)
-        let r ← submdspanExtents t e keep
+        let r ← submdspanExtentsS t e sl
         let exts ← (List.range r.pat.length).mapM (r.extent t)
         let se : List Int := r.pat.map (fun o => match o with | some n => (n : Int) | none => -1)
         pure s!"ext={fmtList exts} rk={r.pat.length}/{rankDynamic r.pat} se={fmtList se}"
-      -- spec: the kept dimensions, in order, with their static extents
-      let kv := ((keep.zip vals).filter (·.1)).map (·.2)
-      let kp := ((keep.zip p).filter (·.1)).map (·.2)
-      out (fmtE m) s!"ext={fmtNatList kv} rk={kv.length}/{(kp.filter (· < 0)).length} se={fmtList kp}"
-    | _, _, _, _ => bad
+      -- spec: the kept dimensions, in order: extent and static extent of a full_extent dimension; hi - lo for a pair,
+      -- static only for a pair of integral constants
+      let rows : List (Option (Int × Int)) := (List.range vals.length).map (fun k =>
+        match names[k]?, vals[k]?, p[k]?, lo[k]?, hi[k]? with
+        | some n, some x, some q, some a, some b =>
+          if n == "F" then some (Int.ofNat x, q)
+          else if n == "I" then none
+          else if n.startsWith "C" then some (b - a, b - a)
+          else some (b - a, -1)
+        | _, _, _, _, _ => none)
+      let kept := rows.filterMap id
+      let kv := kept.map (·.1)
+      let kp := kept.map (·.2)
+      out (fmtE m) s!"ext={fmtList kv} rk={kv.length}/{(kp.filter (· < 0)).length} se={fmtList kp}"
+    | _, _, _ => bad
   | "conv" =>
     match (l.str? "it").bind parseIt, (l.str? "sit").bind parseIt, l.list? "pat", l.list? "spat", l.natList? "ext" with
     | some t, some ts, some p, some sp, some vals =>
@@ -261,6 +409,51 @@ def step (_ : Unit) (l : Line) : Unit × String :=
         pure s!"req={req} exh={fmtBool exh}"
       out (fmtE m) s!"req={Spec.reqSpanStride vals str} exh={fmtBool (Spec.isExhaustiveStride vals str)}"
     | _, _, _, _ => bad
+  | "mda" =>
+    match l.str? "lay", (l.str? "it").bind parseIt, l.list? "pat", l.natList? "ext", l.int? "val" with
+    | some lay, some t, some p, some vals, some val =>
+      let pat := parsePat p
+      if pat.length ≠ vals.length then bad else
+      let rank := vals.length
+      let idxs := (Spec.indices vals).map intsOf
+      match lay with
+      | "left" | "right" =>
+        let ly : Lay := if lay == "left" then .left else .right
+        let m : Except Err String := do
+          let e ← Ext.ofVals t pat (intsOf vals)
+          let req ← reqSpan ly t e
+          let f ← modelMdaFields (mdarrayOfMapping ly t e) (mdarrayOfValue ly t e) (mdarrayRead ly t e) idxs req.toNat val true rank
+          pure s!"req={req}{f} misc=ok"
+        let offs := (Spec.indices vals).map (fun i => match ly with | .left => Spec.offLeft vals i | .right => Spec.offRight vals i)
+        out (fmtE m) s!"req={Spec.prod vals}{specMdaFields offs (Spec.prod vals) val true rank} misc=ok"
+      | "stride" =>
+        match l.natList? "str", l.natList? "perm" with
+        | some str, some perm =>
+          if !Spec.StrideOK vals str perm then out "pre(strides)" "pre(strides)" else
+          let m : Except Err String := do
+            let e ← Ext.ofVals t pat (intsOf vals)
+            let sm ← StrideMap.mk' t e (intsOf str)
+            let req ← sm.reqSpan t
+            let f ← modelMdaFields (mdarrayOfMappingStride t sm) (mdarrayOfValueStride t sm) (mdarrayReadStride t sm) idxs req.toNat val false rank
+            pure s!"req={req}{f} misc=ok"
+          let offs := (Spec.indices vals).map (fun i => Spec.offStride str i)
+          out (fmtE m) s!"req={Spec.reqSpanStride vals str}{specMdaFields offs (Spec.reqSpanStride vals str) val false rank} misc=ok"
+        | _, _ => bad
+      | _ => bad
+    | _, _, _, _, _ => bad
+  | "msz" =>
+    match (l.str? "it").bind parseIt, l.list? "pat", l.natList? "ext" with
+    | some t, some p, some vals =>
+      let pat := parsePat p
+      if pat.length ≠ vals.length then bad else
+      let m : Except Err String := do
+        let e ← Ext.ofVals t pat (intsOf vals)
+        let exts ← (List.range vals.length).mapM ((mdspanExtents e).extent t)
+        let size ← mdspanSize t e
+        let emp ← mdspanEmpty t e
+        pure s!"ext={fmtList exts} size={size} emp={fmtB emp}"
+      out (fmtE m) s!"ext={fmtNatList vals} size={Spec.prod vals} emp={fmtB (vals.contains 0)}"
+    | _, _, _ => bad
   | "span" =>
     match l.nat? "n", l.int? "se", l.str? "op", l.nat? "ct", l.nat? "off", l.int? "cnt" with
     | some n, some se, some op, some ct, some off, some cnt =>
